@@ -16,6 +16,8 @@ package wire
 
 import (
 	"bytes"
+	"encoding/base64"
+	"encoding/hex"
 	"encoding/json"
 	"fmt"
 	"math/rand"
@@ -792,11 +794,225 @@ func vC15Steps(rr dns.RR) (string, bool) {
 	case *dns.NULL:
 		return "[" + b([]byte(v.Data)) + "]", true
 	case *dns.OPT:
-		if len(v.Option) == 0 {
-			return "[]", true
+		// packDataOpt: code, length, then the option's own octets (opaque; rebuilt here from
+		// the option's fields, not through its pack method)
+		var parts []string
+		for _, o := range v.Option {
+			var data []byte
+			switch e := o.(type) {
+			case *dns.EDNS0_COOKIE:
+				d, err := hex.DecodeString(e.Cookie)
+				if err != nil {
+					return "", false
+				}
+				data = d
+			case *dns.EDNS0_NSID:
+				d, err := hex.DecodeString(e.Nsid)
+				if err != nil {
+					return "", false
+				}
+				data = d
+			case *dns.EDNS0_PADDING:
+				data = e.Padding
+			case *dns.EDNS0_EDE:
+				data = append([]byte{byte(e.InfoCode >> 8), byte(e.InfoCode)}, e.ExtraText...)
+			case *dns.EDNS0_LOCAL:
+				data = e.Data
+			default:
+				return "", false
+			}
+			c, l := o.Option(), len(data)
+			parts = append(parts, b([]byte{byte(c >> 8), byte(c), byte(l >> 8), byte(l)}), b(data))
 		}
+		return "[" + strings.Join(parts, ";") + "]", true
+	case *dns.TXT:
+		if len(v.Txt) == 0 {
+			return "[SPoke0]", true // packTxt: msg[offset] = 0; return offset
+		}
+		var parts []string
+		for _, s := range v.Txt {
+			if strings.Contains(s, "\\") || len(s) > 255 {
+				return "", false
+			}
+			parts = append(parts, b(append([]byte{byte(len(s))}, s...)))
+		}
+		return "[" + strings.Join(parts, ";") + "]", true
+	case *dns.HINFO:
+		if strings.Contains(v.Cpu+v.Os, "\\") || len(v.Cpu) > 255 || len(v.Os) > 255 {
+			return "", false
+		}
+		return "[" + b(append([]byte{byte(len(v.Cpu))}, v.Cpu...)) + ";" + b(append([]byte{byte(len(v.Os))}, v.Os...)) + "]", true
+	case *dns.CAA:
+		if strings.Contains(v.Tag+v.Value, "\\") || len(v.Tag) > 255 {
+			return "", false
+		}
+		val := b([]byte(v.Value))
+		if v.Value == "" {
+			val = "SRoom1" // packOctetString refuses offset >= len(msg) before it looks at the string
+		}
+		return "[" + b([]byte{v.Flag}) + ";" + b(append([]byte{byte(len(v.Tag))}, v.Tag...)) + ";" + val + "]", true
+	case *dns.SOA:
+		return "[" + nameStep(v.Ns, true) + ";" + nameStep(v.Mbox, true) + ";" + b(vC15U32s(v.Serial, v.Refresh, v.Retry, v.Expire, v.Minttl)) + "]", true
+	case *dns.SRV:
+		return "[" + b([]byte{byte(v.Priority >> 8), byte(v.Priority), byte(v.Weight >> 8), byte(v.Weight), byte(v.Port >> 8), byte(v.Port)}) + ";" + nameStep(v.Target, false) + "]", true
+	case *dns.DS:
+		d, err := hex.DecodeString(v.Digest)
+		if err != nil {
+			return "", false
+		}
+		return "[" + b([]byte{byte(v.KeyTag >> 8), byte(v.KeyTag), v.Algorithm, v.DigestType}) + ";" + b(d) + "]", true
+	case *dns.TLSA:
+		d, err := hex.DecodeString(v.Certificate)
+		if err != nil {
+			return "", false
+		}
+		return "[" + b([]byte{v.Usage, v.Selector, v.MatchingType}) + ";" + b(d) + "]", true
+	case *dns.DNSKEY:
+		d, err := base64.StdEncoding.DecodeString(v.PublicKey)
+		if err != nil || len(d)%3 != 0 { // padded forms: Len() over-counts (DecodedLen); kept out of this model
+			return "", false
+		}
+		return "[" + b([]byte{byte(v.Flags >> 8), byte(v.Flags), v.Protocol, v.Algorithm}) + ";" + b(d) + "]", true
+	case *dns.RRSIG:
+		d, err := base64.StdEncoding.DecodeString(v.Signature)
+		if err != nil || len(d)%3 != 0 {
+			return "", false
+		}
+		fixed := append([]byte{byte(v.TypeCovered >> 8), byte(v.TypeCovered), v.Algorithm, v.Labels}, vC15U32s(v.OrigTtl, v.Expiration, v.Inception)...)
+		fixed = append(fixed, byte(v.KeyTag>>8), byte(v.KeyTag))
+		return "[" + b(fixed) + ";" + nameStep(v.SignerName, false) + ";" + b(d) + "]", true
+	case *dns.NSEC:
+		bm, ok := vC15Bitmap(v.TypeBitMap)
+		if !ok {
+			return "", false
+		}
+		if len(bm) == 0 {
+			return "[" + nameStep(v.NextDomain, false) + "]", true
+		}
+		return "[" + nameStep(v.NextDomain, false) + ";" + b(bm) + "]", true
 	}
 	return "", false
+}
+
+func vC15U32s(vs ...uint32) []byte {
+	var out []byte
+	for _, v := range vs {
+		out = append(out, byte(v>>24), byte(v>>16), byte(v>>8), byte(v))
+	}
+	return out
+}
+
+// vC15Bitmap is RFC 4034 4.1.2 for a strictly increasing type list (the driver's own encoder).
+func vC15Bitmap(ts []uint16) ([]byte, bool) {
+	var out []byte
+	for i := 0; i < len(ts); {
+		if i > 0 && ts[i] <= ts[i-1] {
+			return nil, false
+		}
+		w := ts[i] / 256
+		var block [32]byte
+		n := 0
+		for ; i < len(ts) && ts[i]/256 == w; i++ {
+			if i > 0 && ts[i] <= ts[i-1] {
+				return nil, false
+			}
+			lo := int(ts[i] % 256)
+			block[lo/8] |= 1 << (7 - lo%8)
+			n = lo/8 + 1
+		}
+		out = append(out, byte(w), byte(n))
+		out = append(out, block[:n]...)
+	}
+	return out, true
+}
+
+// vC15ConcreteMore: the record types whose rdata is literal octets and names in a fixed order.
+func vC15ConcreteMore(r *rand.Rand, h dns.RR_Header, pick func() string) dns.RR {
+	rb := func(n int) []byte { d := make([]byte, n); r.Read(d); return d }
+	txt := func(max int) string {
+		d := rb(r.Intn(max + 1))
+		for i := range d {
+			if d[i] == '\\' {
+				d[i] = '/'
+			}
+		}
+		return string(d)
+	}
+	switch r.Intn(10) {
+	case 0:
+		h.Rrtype = dns.TypeTXT
+		var ss []string
+		switch r.Intn(6) {
+		case 0: // no strings at all: a zero octet poked beyond what is advanced over
+		case 1:
+			ss = []string{""}
+		case 2:
+			ss = []string{txt(255), ""}
+		default:
+			for i := 1 + r.Intn(3); i > 0; i-- {
+				ss = append(ss, txt(20))
+			}
+		}
+		return &dns.TXT{Hdr: h, Txt: ss}
+	case 1:
+		h.Rrtype = dns.TypeSOA
+		return &dns.SOA{Hdr: h, Ns: pick(), Mbox: pick(), Serial: r.Uint32(), Refresh: r.Uint32(), Retry: r.Uint32(), Expire: r.Uint32(), Minttl: r.Uint32()}
+	case 2:
+		h.Rrtype = dns.TypeSRV
+		return &dns.SRV{Hdr: h, Priority: uint16(r.Intn(65536)), Weight: uint16(r.Intn(65536)), Port: uint16(r.Intn(65536)), Target: pick()}
+	case 3:
+		h.Rrtype = dns.TypeDS
+		return &dns.DS{Hdr: h, KeyTag: uint16(r.Intn(65536)), Algorithm: uint8(r.Intn(256)), DigestType: uint8(r.Intn(256)), Digest: hex.EncodeToString(rb([]int{0, 20, 32, 48}[r.Intn(4)]))}
+	case 4:
+		h.Rrtype = dns.TypeDNSKEY
+		return &dns.DNSKEY{Hdr: h, Flags: uint16(r.Intn(65536)), Protocol: 3, Algorithm: uint8(r.Intn(256)), PublicKey: base64.StdEncoding.EncodeToString(rb(3 * r.Intn(24)))}
+	case 5:
+		h.Rrtype = dns.TypeRRSIG
+		return &dns.RRSIG{Hdr: h, TypeCovered: uint16(r.Intn(65536)), Algorithm: uint8(r.Intn(256)), Labels: uint8(r.Intn(8)), OrigTtl: r.Uint32(), Expiration: r.Uint32(), Inception: r.Uint32(),
+			KeyTag: uint16(r.Intn(65536)), SignerName: pick(), Signature: base64.StdEncoding.EncodeToString(rb(3 * r.Intn(24)))}
+	case 6:
+		h.Rrtype = dns.TypeNSEC
+		var ts []uint16
+		t := 0
+		for i := r.Intn(6); i > 0; i-- {
+			t += 1 + r.Intn([]int{3, 40, 300, 9000}[r.Intn(4)])
+			if t > 65535 {
+				break
+			}
+			ts = append(ts, uint16(t))
+		}
+		return &dns.NSEC{Hdr: h, NextDomain: pick(), TypeBitMap: ts}
+	case 7:
+		h.Rrtype = dns.TypeTLSA
+		return &dns.TLSA{Hdr: h, Usage: uint8(r.Intn(4)), Selector: uint8(r.Intn(2)), MatchingType: uint8(r.Intn(3)), Certificate: hex.EncodeToString(rb(r.Intn(40)))}
+	case 8:
+		h.Rrtype = dns.TypeCAA
+		return &dns.CAA{Hdr: h, Flag: uint8(r.Intn(256)), Tag: []string{"issue", "issuewild", "iodef", ""}[r.Intn(4)], Value: []string{"", "letsencrypt.org", txt(30)}[r.Intn(3)]}
+	}
+	h.Rrtype = dns.TypeHINFO
+	return &dns.HINFO{Hdr: h, Cpu: txt(12), Os: txt(12)}
+}
+
+// vC15ConcreteOptions: EDNS options whose wire form is their field octets.
+func vC15ConcreteOptions(r *rand.Rand) []dns.EDNS0 {
+	var out []dns.EDNS0
+	for i := r.Intn(4); i > 0; i-- {
+		d := make([]byte, r.Intn(20))
+		r.Read(d)
+		switch r.Intn(5) {
+		case 0:
+			out = append(out, &dns.EDNS0_COOKIE{Code: dns.EDNS0COOKIE, Cookie: hex.EncodeToString(d)})
+		case 1:
+			out = append(out, &dns.EDNS0_NSID{Code: dns.EDNS0NSID, Nsid: hex.EncodeToString(d)})
+		case 2:
+			out = append(out, &dns.EDNS0_PADDING{Padding: d})
+		case 3:
+			out = append(out, &dns.EDNS0_EDE{InfoCode: uint16(r.Intn(30)), ExtraText: string(d)})
+		default:
+			out = append(out, &dns.EDNS0_LOCAL{Code: uint16(65001 + r.Intn(500)), Data: d})
+		}
+	}
+	return out
 }
 
 // vC15ConcreteCase builds a message from records the concrete model can decompose, packs
@@ -827,7 +1043,7 @@ func vC15ConcreteCase(tr *vC15Trace, r *rand.Rand) {
 	}
 	mk := func() dns.RR {
 		h := dns.RR_Header{Name: pick(), Class: dns.ClassINET, Ttl: uint32(r.Intn(100000)), Rdlength: uint16(40000 + r.Intn(100))}
-		switch r.Intn(9) {
+		switch r.Intn(13) {
 		case 0:
 			h.Rrtype = dns.TypeA
 			ip := net.IP(make([]byte, 4))
@@ -871,6 +1087,9 @@ func vC15ConcreteCase(tr *vC15Trace, r *rand.Rand) {
 			r.Read(d)
 			return &dns.NULL{Hdr: h, Data: string(d)}
 		}
+		if r.Intn(6) != 0 {
+			return vC15ConcreteMore(r, h, pick)
+		}
 		h.Rrtype = dns.TypeA
 		return &dns.A{Hdr: h, A: net.IPv4(10, 0, 0, byte(r.Intn(256))).To4()}
 	}
@@ -885,6 +1104,9 @@ func vC15ConcreteCase(tr *vC15Trace, r *rand.Rand) {
 	}
 	if r.Intn(3) != 0 {
 		o := &dns.OPT{Hdr: dns.RR_Header{Name: ".", Rrtype: dns.TypeOPT, Class: 1232, Ttl: []uint32{0, 0x8000, 0xAB008000, 0x01000000}[r.Intn(4)], Rdlength: 77}}
+		if r.Intn(2) == 0 {
+			o.Option = vC15ConcreteOptions(r)
+		}
 		m.Extra = append(m.Extra, o)
 		if r.Intn(5) == 0 {
 			m.Answer = append(m.Answer, o)
@@ -910,11 +1132,15 @@ func vC15ConcreteCase(tr *vC15Trace, r *rand.Rand) {
 	}
 	sh := vc15gen.VC15MakeShapes(m)
 	recs := vc15gen.VC15Records(m)
+	undecomposed := false
 	render := func(lo, hi int) string {
 		var parts []string
 		for i := lo; i < hi; i++ {
 			rr := recs[i]
-			steps, _ := vC15Steps(rr)
+			steps, okSteps := vC15Steps(rr)
+			if !okSteps {
+				undecomposed = true
+			}
 			kind := "KOther"
 			if _, isOpt := rr.(*dns.OPT); isOpt {
 				kind = "KOpt"
@@ -933,9 +1159,15 @@ func vC15ConcreteCase(tr *vC15Trace, r *rand.Rand) {
 	if werr == nil {
 		bytesCoq = vc15gen.VC15CoqBytes(string(want))
 	}
+	secA, secN, secE := render(0, na), render(na, na+nn), render(na+nn, len(recs))
+	if undecomposed {
+		tr.emit(map[string]any{"k": "concrete/driver", "desc": vC15Types(recs), "nontrivial": false,
+			"go_fail": "driver: the concrete generator produced a record vC15Steps cannot decompose"})
+		return
+	}
 	line := map[string]any{
 		"coq": fmt.Sprintf("CaseConcrete %s %s [%s] %s %s %s %s %s %s", vc15gen.VC15CoqHeader(m), vC15Bool(m.Compress), strings.Join(qs, ";"),
-			render(0, na), render(na, na+nn), render(na+nn, len(recs)), vC15Bool(handled), vC15Bool(werr == nil), bytesCoq),
+			secA, secN, secE, vC15Bool(handled), vC15Bool(werr == nil), bytesCoq),
 		"k":          fmt.Sprintf("concrete/handled=%v/lib=%v", handled, werr == nil),
 		"desc":       map[string]any{"rcode": m.Rcode, "compress": m.Compress, "sections": []int{len(m.Question), na, nn, len(m.Extra)}, "len": len(want), "liberr": vC15ErrStr(werr), "types": vC15Types(recs)},
 		"nontrivial": handled && len(recs) >= 2,
@@ -1220,6 +1452,7 @@ func TestVerifC15Wire(t *testing.T) {
 	for c := 0; c < 30+n/10; c++ {
 		vC15ConcreteCase(tr, r)
 	}
+	vC15PlanPremise(tr, r, 2+n/500)
 	runtime.GOMAXPROCS(prev)
 	if runtime.GOMAXPROCS(0) < 4 {
 		runtime.GOMAXPROCS(4)
